@@ -45,7 +45,10 @@ fn gen_case(r: &mut Rng, id: usize) -> Case {
     // write history
     let nins = *r.pick(&[1usize, 2, 2, 3, 3, 4]);
     let mut ops = vec![];
-    let distinct_pk = r.chance(3, 4);
+    // a quarter of the cases: no background tasks, explicit compaction passes in the history
+    // (keys then distinct: the merge order of equal keys is the heap's business)
+    let nobg = r.chance(1, 4);
+    let distinct_pk = nobg || r.chance(3, 4);
     let mut used: Vec<String> = vec![];
     for _ in 0..nins {
         let nrows = match r.below(8) {
@@ -60,11 +63,12 @@ fn gen_case(r: &mut Rng, id: usize) -> Case {
                 let mut v = gen_val(r, c.ty, c.nullable);
                 if Some(i) == pk && distinct_pk {
                     let mut tries = 0;
-                    while used.contains(&canon_value(&v)) && tries < 50 {
+                    while used.contains(&canon_value(&v)) && (tries < 50 || nobg) {
+                        let hi = if tries < 50 { 120 } else { 5000 };
                         v = match c.ty {
-                            Ty::I32 => DataValue::Int32(r.range(-5, 120) as i32),
-                            Ty::I64 => DataValue::Int64(r.range(-5, 120)),
-                            Ty::Str => DataValue::String(format!("k{}", r.range(0, 500)).into()),
+                            Ty::I32 => DataValue::Int32(r.range(-5, hi) as i32),
+                            Ty::I64 => DataValue::Int64(r.range(-5, hi)),
+                            Ty::Str => DataValue::String(format!("k{}", r.range(0, 5000)).into()),
                         };
                         tries += 1;
                     }
@@ -87,6 +91,9 @@ fn gen_case(r: &mut Rng, id: usize) -> Case {
             if canon_value(&a) != canon_value(&b) {
                 ops.push(Op::Del(c, a, b));
             }
+        }
+        if nobg && ops.iter().filter(|o| matches!(o, Op::Ins(_))).count() >= 2 && r.chance(1, 2) {
+            ops.push(Op::Compact);
         }
     }
     // queries
@@ -176,7 +183,7 @@ fn gen_case(r: &mut Rng, id: usize) -> Case {
         scans.push(ScanReq { cols: (0..ncols).collect(), range: None, sorted: true });
     }
     scans.push(ScanReq { cols: (0..ncols).collect(), range: None, sorted: false });
-    Case { id, block, cols, pk, pkdecl, ops, queries, scans }
+    Case { id, nobg, block, cols, pk, pkdecl, ops, queries, scans }
 }
 
 fn main() {
